@@ -744,9 +744,16 @@ class LessParser(object):
                                       | id
                                       | dom
                                       | combinator
-                                      | color
         """
         p[0] = p[1]
+
+    def p_ident_part_hex_id(self, p):
+        """ ident_part                : css_color
+                                      | css_color t_ws
+        """
+        # An id selector of three or six hexadecimal digits is lexed as a
+        # colour; in a selector it is kept as written, not normalised.
+        p[0] = tuple(list(p)[1:])
 
     def p_ident_part_aux(self, p):
         """ ident_part                : combinator vendor_property
